@@ -23,7 +23,11 @@ CLAIMS = {
         text="Theorems c02_rows_sound, c02_rows_complete (set of rows = projections of satisfying assignments) and c02_rows_nodup "
              "(no row twice when all variables are selected; pairwise-incompatible outputs by induction) for arbitrary World, any "
              "number of variables, self-joins, conditions over variable subsets. Counter-witness c02_empty_domain_witness for the "
-             "excluded point (known finding C02-F1).",
+             "excluded point (known finding C02-F1). At the STATEFUL layer (L2 machine: the evaluator with its duplicate-tracking "
+             "sets, result cache disabled): c02_l2_all_selected / c02_l2_nodup - when every variable of the condition is selected, "
+             "each of any number of consecutive evaluations of the query object returns exactly the L1 rows, in order (the "
+             "duplicate check never fires: induction over the tree, invariant 'every stored duplicate key clashes with the binding "
+             "being evaluated', Lemmas/MachineNoDup.lean).",
         note=BASE_NOTE + "Hypotheses: flatten-free; every non-selected variable has a non-empty domain (else C02-F1); caching on is "
              "covered by correspondence and subject to known finding C05-F1.",
         tech="Lean 4 proof (soundness/completeness/disjointness by induction) + differential correspondence"),
